@@ -152,6 +152,9 @@ type stableRec struct {
 	Sort  *Sort
 	Ref   *Term
 	Alloc *ssa.Alloc // identity across runs (terms are renumbered per run)
+	// a field of a struct this function allocated and has not published yet (see unpublishedStruct): dropped when the
+	// allocating function returns
+	Unpublished bool
 }
 
 type epochMergeRec struct {
